@@ -94,8 +94,9 @@ func (lg *locGen) processOp(o map[string]interface{}) {
 	if r.Intn(6) == 0 {
 		ev = lg.g.mutate(ev).(map[string]interface{})
 	}
-	if r.Intn(25) == 0 && len(lg.ids) > 0 {
-		ev["trigger!"] = lg.ids[r.Intn(len(lg.ids))]
+	if (r.Intn(25) == 0 || lg.profile == "cronhooks") && len(lg.ids) > 0 {
+		// a tick of the cron service: the job's event
+		ev = map[string]interface{}{"trigger!": lg.ids[r.Intn(len(lg.ids))]}
 	}
 	o["event"] = ev
 	o["sem"] = lg.sem
